@@ -25,7 +25,10 @@ type zzBody struct {
 	closed  int
 }
 
-func (b *zzBody) Read(p []byte) (int, error) { panic("zzBody.Read: only ReadBytes is modelled") }
+func (b *zzBody) Read(p []byte) (int, error) {
+	vUnsupported("zzBody.Read: only bufio.Reader.ReadBytes over the body is modelled")
+	return 0, nil
+}
 func (b *zzBody) Close() error               { b.closed++; return nil }
 
 var zzCurBody *zzBody
@@ -186,17 +189,24 @@ func zzC09Cut() {
 			may++
 		}
 	}
-	inside := false // the cut falls strictly inside an event, before its payload is complete
+	inside := false    // the cut falls strictly inside an event, before its payload is complete
+	inPayload := false // ... more precisely inside the payload bytes (at least one received, not all)
 	for _, sp := range spans {
 		if cut > sp.start && cut < sp.dataDone {
 			inside = true
+			if cut > sp.dataDone-len(sp.payload) {
+				inPayload = true
+			}
 		}
 	}
 	known := !isErr && inside
+	// The known finding (D4) is recorded symptom by symptom, so that a change which merely swaps one symptom for
+	// another inside the same region is still reported: a cut inside the payload is known to hand truncated JSON to
+	// the decoder and thereby fail the connection — it is NOT known to lose the message silently or to move the cursor.
 	vKnownRegion("C09.cut.no-truncated-payload-decoded", "clean-eof-cut-inside-event", known)
 	vKnownRegion("C09.cut.no-failure-for-a-mere-cut", "clean-eof-cut-inside-event", known)
-	vKnownRegion("C09.cut.delivered-exactly-the-complete-events", "clean-eof-cut-inside-event", known)
-	vKnownRegion("C09.cut.cursor-is-last-delivered-event", "clean-eof-cut-inside-event", known)
+	vKnownRegion("C09.cut.delivered-exactly-the-complete-events", "clean-eof-cut-inside-event", known && !inPayload)
+	vKnownRegion("C09.cut.cursor-is-last-delivered-event", "clean-eof-cut-inside-event", known && !inPayload)
 
 	for _, d := range zzDecodeLog {
 		vAssert(len(d) == plen, "C09.cut.no-truncated-payload-decoded")
@@ -219,13 +229,14 @@ func zzC09Cut() {
 	for i := 0; i < d && i < len(spans); i++ {
 		vAssert(delivered[i] == spans[i].payload, "C09.cut.in-order-intact")
 	}
+	alive := c.failure() == nil && !clientClosed // (once the connection has failed there is no resume and the cursor is moot)
 	if d > 0 && d <= len(spans) {
-		vAssert(lastID == spans[d-1].id, "C09.cut.cursor-is-last-delivered-event")
+		vAssert(!alive || lastID == spans[d-1].id, "C09.cut.cursor-is-last-delivered-event")
 		vAssert(synthetic == 0, "C09.cut.no-synthetic-error-when-resumable")
 		vReach("resumable")
 	} else if d == 0 {
 		// nothing delivered: no cursor, and the pending call is failed with a synthetic error instead of hanging
-		vAssert(lastID == "", "C09.cut.cursor-is-last-delivered-event")
+		vAssert(!alive || lastID == "", "C09.cut.cursor-is-last-delivered-event")
 		if !known {
 			vAssert(synthetic == 1, "C09.cut.unresumable-call-fails-cleanly")
 			vReach("unresumable")
